@@ -189,3 +189,7 @@ for _p, _h in (("C03", "PointCharge"), ("C05", "Evals"), ("C06", "Density"), ("C
     CHECKS[_p].harnesses.append("contracts.representation:" + _h)
     CHECKS[_p].assumptions.append("dtype / memory layout / writability of array arguments: bounded native check only (contracts.representation), "
                                   "the symbolic arrays all report float64")
+
+# the coordinate-type tag (and its short spellings) selects the route of every public wrapper
+for _p in ("C01", "C03", "C09"):
+    CHECKS[_p].harnesses.append("contracts.overlap:ShellSetters")
